@@ -488,6 +488,7 @@ class LinePreempt:
         self.k = k
         self.action = action
         self.count = 0
+        self.occ = 0
         self.fired_at = None
         self.prefix = prefix
 
@@ -495,7 +496,15 @@ class LinePreempt:
         if event == "line" and self.s.current is not None and self.s.current.name == "main" and not self.s.aborting:
             n = self.count
             self.count += 1
-            if n == self.k:
+            if isinstance(self.k, (list, tuple)):
+                # (file name, line number, occurrence): the occ-th time main reaches that line
+                hit = False
+                if frame.f_lineno == self.k[1] and frame.f_code.co_filename.endswith("/" + self.k[0]):
+                    self.occ += 1
+                    hit = self.occ == self.k[2] + 1
+            else:
+                hit = n == self.k
+            if hit:
                 self.fired_at = (frame.f_code.co_filename.rsplit("/", 1)[-1], frame.f_lineno)
                 if self.action:
                     self.action()
